@@ -61,6 +61,13 @@ def wl_bloom(ctx, rng, case):
 
     counting = rng.random() < 0.4
     est, rate, m, k = gen.bloom_geometry(rng, max_bits=4000 if counting else 60000)
+    if case.index % 12 == 5:
+        # a request whose geometry sits on the single-precision edge: sized from the full-precision rate it would differ from the geometry
+        # of the narrowed rate that the export records (and every loader sizes from)
+        est, text = rng.choice([e for e in gen.f32_edge_requests() if e[0] < 20000])
+        rate = float(text)
+        m, k = refimpl.bloom_sizing_simple(est, rate)
+        ctx.count("requests_on_the_float32_edge")
     keys = gen.universe(rng, rng.randint(3, 24))
     hname, hf = gen.pick_hash(rng, keys)
     cls = P.CountingBloomFilter if counting else P.BloomFilter
